@@ -115,7 +115,8 @@ def warm_mesh(m):
                lambda: list(itertools.islice(m.indices, 2)), lambda: list(itertools.islice(iter(m), 2)),
                lambda: repr(m), lambda: m.region.units, lambda: m.region.dims, lambda: m.bc,
                lambda: m.index2point((0,) * m.region.ndim), lambda: m.point2index(m.region.center),
-               lambda: m.region.multiplier, lambda: hash(m.region) if m.region.__hash__ else None):
+               lambda: m.region.multiplier, lambda: hash(m.region) if m.region.__hash__ else None,
+               lambda: [m[name] for name in list(m.subregions)], lambda: m[m.region]):
         _quiet(fn)
 
 
